@@ -440,6 +440,10 @@ def sorted_complex(z):
     return [[float(w.real).hex(), float(w.imag).hex()] for w in sorted(z, key=lambda w: (w.real, w.imag))]
 
 
+_RETAINED = []
+OPS["probe.reread"] = lambda: list(_RETAINED)
+
+
 def run(job):
     try:
         fn = OPS[job["op"]]
@@ -447,6 +451,9 @@ def run(job):
         keep = [a.copy() if isinstance(a, np.ndarray) else a for a in args] if job.get("check_mutation") else None
         out = fn(*args)
         res = {"ok": enc(out)}
+        if job.get("retain"):
+            # keep the very objects handed back: "probe.reread" encodes them again later in the same process
+            _RETAINED.append(out)
         if keep is not None:
             res["mutated"] = any(
                 isinstance(a, np.ndarray) and not (np.array_equal(a, k) and a.dtype == k.dtype) for a, k in zip(args, keep))
